@@ -2904,7 +2904,10 @@ start:
   }
 
 finish:
-  cur->skip_next = 0;
+  if (rc != IWKV_ERROR_NOTFOUND) {
+    // A move that found nothing leaves the cursor where it was: a step still owed to a record deleted under it stays owed
+    cur->skip_next = 0;
+  }
   if (rc && (rc != IWKV_ERROR_NOTFOUND)) {
     if (cur->cn) {
       _sblk_release(lx, &cur->cn);
